@@ -45,6 +45,23 @@ Proof.
 Qed.
 Print Assumptions C04_crosstab_count_spec.
 
+(* "a true contingency table": with unrestricted categories the entries of every row add up to the row's
+   (hidden) total, which is the number of valid cells of that zone — no valid cell is dropped or counted twice *)
+Theorem C04_row_counts_sum_to_total : forall (A : Type) (key value : A -> xv) (nodata : xv)
+    (cells : list A) (zone_ids : option (list xv)) (u : xv) (total : Z) (counts : list Z),
+  ids_ok zone_ids ->
+  In (u, (total, counts)) (crosstab_2d key value cells zone_ids None nodata) ->
+  f_sum counts = total /\
+  total = lenZ (filter (valid nodata) (map value (filter (keq key u) cells))).
+Proof.
+  intros A key value nodata cells zone_ids u total counts Hids Hin.
+  rewrite (crosstab_2d_spec key value nodata cells zone_ids None Hids) in Hin.
+  cbn [select_cats] in Hin.
+  apply in_map_iff in Hin. destruct Hin as (u' & Heq & _). inversion Heq; subst. clear Heq.
+  split; [apply row_counts_sum|reflexivity].
+Qed.
+Print Assumptions C04_row_counts_sum_to_total.
+
 (* agg='percentage' on the unrestricted categories: every non-empty row sums to
    exactly 100 (as rationals); an empty row is all NaN *)
 Theorem C04_percentage_row_sum : forall (A : Type) (key value : A -> xv) (nodata : xv)
